@@ -53,6 +53,9 @@ def _closure_var(cm, f):
             for a in st.names:
                 if a.name == "timeout":
                     env_names.add(a.asname or a.name)
+        elif isinstance(st, ast.FunctionDef) and getattr(st, "_origin_name", None) == "timeout" and \
+                (getattr(st, "_origin_rel", "") or "").endswith("timers.py"):
+            env_names.add(st.name)      # the definition grafted into the inlined view
     for n in ast.walk(f):
         if isinstance(n, ast.Assign) and isinstance(n.value, ast.Call) and isinstance(n.value.func, ast.Name) \
                 and n.value.func.id in env_names and len(n.targets) == 1 and isinstance(n.targets[0], ast.Name):
@@ -432,6 +435,20 @@ def _from_start(ctx, rep):
             else:
                 verdict = verdict
                 detail = detail or "starting point '{}' is not one clock reading taken when the closure is made".format(start)
+        elif isinstance(other, ast.Call) and isinstance(other.func, ast.Attribute) and \
+                isinstance(other.func.value, ast.Name) and not other.args and not other.keywords:
+            # elapsed time read from an object made by timeout(): <clock now> - <field>, the field
+            # set once from the clock by the constructor and written by no method the closure calls
+            r_ = _object_elapsed(tm, outer, inner, other.func.value.id, other.func.attr, is_clock)
+            if r_ is None:
+                detail = detail or "elapsed time is computed as {}".format(ast.unparse(other)[:60])
+            else:
+                ok_, d_ = r_
+                if not ok_:
+                    verdict = False
+                    detail = d_
+                else:
+                    verdict = True if verdict is None else verdict
         else:
             detail = detail or "elapsed time is computed as {}".format(ast.unparse(other)[:60])
     if verdict is None:
@@ -439,6 +456,112 @@ def _from_start(ctx, rep):
                       "recognised" + (": " + detail if detail else ""))
     else:
         rep.add("from-start", c, tm.where(inner), verdict, detail if not verdict else "")
+
+
+def _object_elapsed(tm, outer, inner, obj, meth, is_clock):
+    """obj.meth() in the closure, obj = Cls() once in timeout(): (ok, detail), or None when the
+    class is outside the straight-line subset interpreted here."""
+    sets = [a for a in ast.walk(outer) if isinstance(a, ast.Assign) and any(
+        isinstance(t_, ast.Name) and t_.id == obj for t_ in a.targets)]
+    if len(sets) != 1 or any(sets[0] is x for x in ast.walk(inner)):
+        return None
+    mk = sets[0].value
+    if not (isinstance(mk, ast.Call) and isinstance(mk.func, ast.Name) and not mk.args and not mk.keywords):
+        return None
+    cls = mk.func.id
+    init = tm.funcs.get(cls + ".__init__")
+    m = tm.funcs.get(cls + "." + meth)
+    if init is None or m is None or len(m.args.args) != 1 or m.decorator_list:
+        return None
+
+    def straight(fn):
+        """[(target expr, value expr)] of a body made of assignments and one final return"""
+        out = []
+        ret = None
+        for st in fn.body:
+            if isinstance(st, ast.Expr) and isinstance(st.value, ast.Constant):
+                continue
+            if isinstance(st, ast.Assign) and len(st.targets) == 1:
+                t = st.targets[0]
+                if isinstance(t, ast.Tuple) and isinstance(st.value, ast.Tuple) and len(t.elts) == len(st.value.elts):
+                    out.append((list(t.elts), list(st.value.elts)))
+                else:
+                    out.append(([t], [st.value]))
+            elif isinstance(st, ast.AnnAssign) and st.value is not None:
+                out.append(([st.target], [st.value]))
+            elif isinstance(st, ast.Return) and st is fn.body[-1]:
+                ret = st.value
+            else:
+                return None, None
+        return out, ret
+    ia, _ = straight(init)
+    ma, mret = straight(m)
+    if ia is None or ma is None or mret is None:
+        return None
+    iself = init.args.args[0].arg
+    mself = m.args.args[0].arg
+
+    def field(e, selfname):
+        if isinstance(e, ast.Attribute) and isinstance(e.value, ast.Name) and e.value.id == selfname:
+            return e.attr
+        return None
+    fields = {}
+    for ts_, vs_ in ia:
+        for t_, v_ in zip(ts_, vs_):
+            fl = field(t_, iself)
+            if fl is None:
+                return None
+            fields[fl] = v_
+    # the method: substitute locals (right-hand sides of one statement are evaluated before its stores)
+    env = {}
+    wrote = []
+
+    def subst(e):
+        if isinstance(e, ast.Name) and e.id in env:
+            return env[e.id]
+        fl = field(e, mself)
+        if fl is not None:
+            return ("field", fl) if fl not in wrote else ("rewritten", fl)
+        if isinstance(e, ast.BinOp):
+            return ("bin", type(e.op).__name__, subst(e.left), subst(e.right))
+        if isinstance(e, ast.Call) and is_clock(e):
+            return ("clock",)
+        return ("?", ast.unparse(e))
+    for ts_, vs_ in ma:
+        vals = [subst(v_) for v_ in vs_]
+        for t_, v_ in zip(ts_, vals):
+            if isinstance(t_, ast.Name):
+                env[t_.id] = v_
+            else:
+                fl = field(t_, mself)
+                if fl is None:
+                    return None
+                wrote.append(fl)
+    r = subst(mret)
+    if not (isinstance(r, tuple) and r[0] == "bin" and r[1] == "Sub" and r[2] == ("clock",)
+            and isinstance(r[3], tuple) and r[3][0] == "field"):
+        return None
+    fl = r[3][1]
+    if fl not in fields or not is_clock(fields[fl]):
+        return False, "the starting point {}.{} is not one clock reading taken when the closure is made".format(cls, fl)
+    if fl in wrote:
+        return False, "each check moves the starting point ({}.{}() writes {}): the deadline is measured from the " \
+                      "previous check, not from the start".format(cls, meth, fl)
+    # other methods of the object called by the closure must not write the field either
+    for c_ in ast.walk(inner):
+        if isinstance(c_, ast.Call) and isinstance(c_.func, ast.Attribute) and isinstance(c_.func.value, ast.Name) \
+                and c_.func.value.id == obj and c_.func.attr != meth:
+            o_ = tm.funcs.get(cls + "." + c_.func.attr)
+            if o_ is None:
+                return None
+            for st in ast.walk(o_):
+                if isinstance(st, ast.Attribute) and isinstance(st.ctx, ast.Store) and st.attr == fl:
+                    return False, "{}.{}() called by the check writes the starting point {}".format(cls, c_.func.attr, fl)
+    for st in ast.walk(inner):
+        if isinstance(st, ast.Attribute) and isinstance(st.ctx, ast.Store) and isinstance(st.value, ast.Name) \
+                and st.value.id == obj:
+            return False, "the check writes {}.{}".format(obj, st.attr)
+    return True, ""
 
 
 def _best(ctx, rep, cm):
